@@ -499,6 +499,64 @@ def rule_memo_coherent(ctx, rep, rule_id="R-MEMO-COHERENT", only_prefixes=None):
                             "results_for_node, the codemods' docs/description, ...)")
 
 
+def rule_finding_owns_rule(ctx, rep, rule_id="R-FINDING-OWNS-RULE"):
+    """Shared by C09 / C12 / C15."""
+    rep.rule(
+        rule_id,
+        "the report-time back-fill of rule names (update_finding_metadata) assigns `finding.rule.name / .url` in place, per codemod; as long as "
+        "it does, every Finding the result readers build owns a Rule object of its own (`rule=Rule(...)` built at the construction, or the rule "
+        "of the finding being copied) -- a Rule interned per rule id / message and shared between findings is renamed for all of them at once, so "
+        "two codemods of one run that are driven by the same tool rule under different names report each other's name",
+        min_instances=4,
+    )
+    mutators = []
+    for fn in ctx.prog.live_functions():
+        if not fn.module.name.startswith(("codemodder.", "core_codemods.")):
+            continue
+        for a in walk_no_nested(fn.node):
+            if isinstance(a, (ast.Assign, ast.AugAssign)):
+                for t in (a.targets if isinstance(a, ast.Assign) else [a.target]):
+                    if isinstance(t, ast.Attribute) and isinstance(t.value, ast.Attribute) and t.value.attr == "rule":
+                        mutators.append((fn, a))
+            if isinstance(a, ast.Call) and call_name(a) == "setattr" and a.args and isinstance(a.args[0], ast.Attribute) and a.args[0].attr == "rule":
+                mutators.append((fn, a))
+    n = 0
+    for fn in ctx.prog.live_functions():
+        if not fn.module.name.startswith(("codemodder.", "core_codemods.")):
+            continue
+        r = None
+        for c in walk_no_nested(fn.node):
+            if not (isinstance(c, ast.Call) and (last_attr(c.func) in ("Finding", "UnfixedFinding"))):
+                continue
+            rv = next((k.value for k in c.keywords if k.arg == "rule"), None)
+            if rv is None:
+                continue
+            r = r or ctx.resolver(fn)
+            n += 1
+            v = r.expand(rv) if isinstance(rv, ast.Name) else rv
+            fresh = isinstance(v, ast.Call) and last_attr(v.func) == "Rule"
+            copied = isinstance(v, ast.Attribute) and v.attr == "rule" and isinstance(v.value, ast.Name)
+            if fresh and isinstance(rv, ast.Name):
+                # bound once to a constructor call -- but where?  a binding outside the loop / comprehension that builds the findings is shared
+                pm = ctx.parents(fn)
+                def loops_of(node):
+                    out, cur = [], pm.get(id(node))
+                    while cur is not None and cur is not fn.node:
+                        if isinstance(cur, (ast.For, ast.While, ast.ListComp, ast.GeneratorExp, ast.SetComp, ast.DictComp)):
+                            out.append(id(cur))
+                        cur = pm.get(id(cur))
+                    return out
+                bind = next((a for a in walk_no_nested(fn.node) if isinstance(a, ast.Assign) and any(isinstance(t, ast.Name) and t.id == rv.id for t in a.targets)), None)
+                if bind is not None and loops_of(c) != loops_of(bind):
+                    fresh = False
+            ok = fresh or copied or not mutators
+            rep.check(rule_id, fn.qname, fn.loc(c), ok, "rule-object-per-finding",
+                      f"`rule={unparse(rv)[:40]}` is not a Rule built for this finding, while {mutators[0][0].qname if mutators else ''} renames `finding.rule` in place: "
+                      "the findings that share the object are renamed together")
+    if n < 4:
+        raise AnalysisError(f"only {n} Finding(rule=...) constructions found in the result readers")
+
+
 def check(ctx, rep):
     rep.explanation = (
         "Cross-talk between codemods of one run can only travel through shared state: the execution context's containers, objects "
@@ -525,6 +583,7 @@ def check(ctx, rep):
     # the package stores are parsed once per run and shared by every codemod: a stale view of them is cross-talk between codemods
     rule_store_coherent(ctx, rep)
     rule_memo_coherent(ctx, rep)
+    rule_finding_owns_rule(ctx, rep)
     rep.not_covered += [
         "semgrep_prefilter_results is computed once before any rewrite and gates each later detector run: whether one codemod's "
         "rewrite can enable another's rule needs semgrep semantics (declined; no enabling pair could be constructed)",
